@@ -31,6 +31,9 @@ def check(chk):
     positional_relabel(chk)
     _multiindex(chk)
     _renamer(chk)
+    # the feature coordinates of list elements are kept under "0", "1", ...: splitting walks them in list order
+    from .common import index_key_order
+    index_key_order(chk, "MIRROR.state.concat.index_keys", ("coords_in",))
     chk.floor("MIRROR.chain", 10)
     chk.floor("MIRROR.state", 18)
     chk.floor("MIRROR.order", 3)
@@ -211,6 +214,24 @@ def _stacker(chk):
                 pairs.add((next(iter(ks)), next(iter(vs))))
     chk.check({("self.sample_name", "sample_dims"), ("self.feature_name", "feature_dims")} <= pairs, "MIRROR.state.stack.mapping", fit, fit.node,
               construct="fit records {sample_name: sample_dims, feature_name: feature_dims}", why="dims_mapping no longer records which original dimensions each stacked name stands for")
+    # transform stacks new data with the dimension lists RECORDED AT FIT (dims_mapping), role by role: lists taken from the
+    # incoming data follow its own dimension order, so the columns of the 2-D matrix no longer line up with the fitted features
+    tr = st.methods.get("transform")
+    chk.require(tr is not None, "Stacker.transform vanished")
+    trf = FuncFacts.of(tr)
+    from .common import bind_args as _bind2
+    scalls = [c for c in calls_in(tr) if is_self_attr(c.func, "_stack")]
+    chk.require(len(scalls) >= 1, "Stacker.transform: call of _stack vanished")
+    for c in scalls:
+        b = _bind2(stack, c)
+        for pn, role in (("sample_dims", "self.sample_name"), ("feature_dims", "self.feature_name")):
+            a = b.get(pn)
+            ps = trf.paths(a, spine_only=True) if a is not None else []
+            okd = bool(ps) and all(p.atom.kind == "selfattr" and p.atom.name == "self.dims_mapping" and p.ops and p.ops[0].kind == "subscript"
+                                   and {q.atom.name for q in trf.paths(p.ops[0].node.slice, spine_only=True)} == {role} for p in ps)
+            chk.check(okd, "MIRROR.state.stack.transform_dims", tr, c, construct=f"transform stacks with dims_mapping[{role.split('.')[-1]}] as {pn}",
+                      why=f"transform stacks new data with {pn} = {norm(a) if a is not None else None} ({sorted({p.atom.name for p in ps})}) instead of the list recorded at fit: "
+                          "data whose dimensions come in another order is stacked into differently ordered columns and every value is attached to the wrong label")
     # dataset variant: variable level name
     writer = [c for c in calls_in(stack) if isinstance(c.func, ast.Attribute) and c.func.attr == "to_stacked_array"]
     chk.require(len(writer) == 1, "Stacker._stack: to_stacked_array vanished")
